@@ -29,10 +29,14 @@ func vpWorkFiles(n, depth, maxc, maxContent int) []vpFile {
 			cl = zzvp.Choose(maxContent + 1) // lengths 0..maxContent; with contentfixed=1 exactly maxContent bytes
 		}
 		var c []byte
-		if zzvp.Param("concontent", 0) == 1 {
+		if zzvp.Param("concontent", 0) == 1 || i >= zzvp.Param("symfiles", 99) {
 			c = []byte{byte('A' + i)} // fixed, pairwise distinct bytes (the harness varies contents elsewhere)
 		} else {
-			c = zzvp.Bytes("c"+id, cl, "")
+			alpha := ""
+			if zzvp.Param("smallcontent", 0) == 1 {
+				alpha = "x\x00\n" // three byte values: enough where contents matter only through (in)equality
+			}
+			c = zzvp.Bytes("c"+id, cl, alpha)
 		}
 		zzvp.WriteFile(zzvp.Root()+"/"+p, c)
 		fs = append(fs, vpFile{p, c})
